@@ -1,10 +1,12 @@
 (** C01 -- extraction of the executable model:
       W <mesh> <xp> <echo> <object tokens...>   write an object  -> OK <hex main> <hex mesh|-> <hex pdat|->
-      R <hex main> <hex mesh|-> <hex pdat|->    read files       -> OK <object tokens...> *)
+      R <hex main> <hex mesh|-> <hex pdat|->    read files       -> OK <object tokens...>
+      B <object tokens...>                      write the MESHA / MESHB records -> OK <record tokens of [A; B]>
+      C <hex main> <record tokens of [A; B]>    read main file and the pair     -> OK <object tokens...> *)
 From Coq Require Import Ascii String List Bool Arith ZArith NArith.
 From PTBase Require Import Exn PyStr PyNum PyVal Fmt FixedFormat Wire.
 From Gen Require Import GenTables GenSections.
-From P Require Import Comb Obj Fields Sections SectionsB Rec SecRocks SecMesh SecGener SecMisc SecParam T2DataIO Whole Example Codec.
+From P Require Import Comb Obj Fields Sections SectionsB Rec SecRocks SecMesh SecGener SecMisc SecParam T2DataIO Whole IdemWhole Example IdemEx Bin Codec.
 Import ListNotations.
 
 Definition decode_obj (toks : list str) : res t2d :=
@@ -41,7 +43,8 @@ Definition show_hyps (d0 : t2d) : str :=
   [bit (forallb (fun k => existsb (String.eqb k) covered) ks);
    bit (match write_lines d with Ok _ => true | Raise _ => false end);
    bit (match xprec d with [] => true | _ => false end);
-   bit (is_end (end_keyword d)); bit (title_ok d); bit (chain_ok d ks (start_state d)); bit (hyps_ok d ks)].
+   bit (is_end (end_keyword d)); bit (title_ok d); bit (chain_ok d ks (start_state d)); bit (hyps_ok d ks);
+   bit (forallb (fun k => existsb (String.eqb k) idem_covered) ks); bit (idem_hyps1 d ks); bit (idem_hyps d ks)].
 Definition rstrip_sp (s : str) : str := rstrip_by (fun c => ceqb c " "%char) s.
 Definition strip_line (l : str) : str :=
   match rev l with c :: r => if ceqb c nl then rstrip_sp (rev r) +++ [nl] else rstrip_sp l | [] => [] end.
@@ -59,6 +62,21 @@ Definition show_idem (d : t2d) : str :=
                         | Raise _ => s2l "W2" end
              | Raise _ => s2l "R1" end
   | Raise _ => s2l "W1" end.
+Definition ebrec (r : brec) : node :=
+  match r with
+  | BI l => NL [estr (s2l "I"); elist ez l]
+  | BD l => NL [estr (s2l "D"); evals l]
+  | BS l => NL [estr (s2l "S"); elist estr l]
+  end.
+Definition dbrec (n : node) : res brec :=
+  match n with
+  | NL [NV (XStr k); x] =>
+      if str_eqb k (s2l "I") then do l <- dlist dz x; Ok (BI l)
+      else if str_eqb k (s2l "D") then do l <- dvals x; Ok (BD l)
+      else if str_eqb k (s2l "S") then do l <- dlist dstr x; Ok (BS l)
+      else bad
+  | _ => bad
+  end.
 Definition run_case (line : str) : str :=
   match split_fast [] [] line with
   | k :: rest =>
@@ -75,6 +93,23 @@ Definition run_case (line : str) : str :=
             match read_files (mk_files (unhex_lines [] [] h) (opt_unhex m) (opt_unhex p)) with
             | Ok d => app (s2l "OK") (pr (et2d d) [])
             | Raise e => app (s2l "RAISE ") (show_exn e) end
+        | _ => s2l "BADCASE" end
+      else if str_eqb k (s2l "B") then
+        match decode_obj rest with
+        | Ok d => match write_bin d with
+                  | Ok (a, b) => app (s2l "OK") (pr (NL [elist ebrec a; elist ebrec b]) [])
+                  | Raise e => app (s2l "RAISE ") (show_exn e) end
+        | Raise _ => s2l "BADOBJ" end
+      else if str_eqb k (s2l "C") then
+        match rest with
+        | h :: toks =>
+            match parse_toks toks [] [] with
+            | Some (NL [NL [na; nb]]) =>
+                match (do a <- dlist dbrec na; do b <- dlist dbrec nb;
+                       read_files_bin (mk_files (unhex_lines [] [] h) None None) a b) with
+                | Ok d => app (s2l "OK") (pr (et2d d) [])
+                | Raise e => app (s2l "RAISE ") (show_exn e) end
+            | _ => s2l "BADCASE" end
         | _ => s2l "BADCASE" end
       else if str_eqb k (s2l "H") then
         match decode_obj rest with Ok d => show_hyps d | Raise _ => s2l "BADOBJ" end
